@@ -59,8 +59,8 @@ pub fn check_spelling(ctx: &mut Ctx, ps: &mut Parsers, spec: &Spec, spell_seed: 
     ctx.begin(&case);
     match judge(ps, &sp.text, ext, conv, expected, &sp.meta_order) {
         Err(p) => {
-            ctx.count("panic_in_parse(C03)");
-            let _ = p;
+            // "parses without errors to exactly that recipe": a panic on a documented spelling is this property's business too
+            ctx.violation(&case, "reference_model", &format!("panic|{}", crate::core::strip_digits(&p.message).chars().take(60).collect::<String>()), format!("the parser panics on this spelling: {} at {}", p.message, p.location));
         }
         Ok(o) if o.ok => {
             ctx.nontrivial(&case);
